@@ -615,22 +615,28 @@ func (c *Config) isBelongUncached(absDir string) bool {
 	return false
 }
 
+// isUnderPath reports whether path equals prefix or lies below it (segment-wise).
+func isUnderPath(path, prefix string) bool {
+	path = filepath.ToSlash(filepath.Clean(path))
+	prefix = filepath.ToSlash(filepath.Clean(prefix))
+	return path == prefix || strings.HasPrefix(path, prefix+"/")
+}
+
 // IsTargetDir checks if the directory is a target directory
 func (c *Config) IsTargetDir(dir string) bool {
-	// check if the dir is in the excludes
-	if dir == "vendor" || dir == "testdata" || dir == "node_modules" {
+	segments := strings.Split(filepath.ToSlash(dir), "/")
+	// vendor and node_modules at the project root, testdata anywhere
+	if segments[0] == "vendor" || segments[0] == "node_modules" {
 		return false
 	}
-	// check if the dir is in the excludes
-	segments := strings.Split(dir, "/")
 	for _, segment := range segments {
 		if segment == "testdata" {
 			return false
 		}
 	}
-	// check if the file is in the excludes
+	// check if the dir is in the excludes (whole path segments, not string prefixes)
 	for _, exclude := range c.Ignores {
-		if dir == exclude || strings.HasPrefix(dir, exclude) {
+		if isUnderPath(dir, exclude) {
 			return false
 		}
 	}
@@ -645,5 +651,11 @@ func (c *Config) IsTargetDir(dir string) bool {
 
 // IsTargetFile checks if the file is a target file
 func (c *Config) IsTargetFile(fileName string) bool {
+	// a file can be listed in the excludes itself
+	for _, exclude := range c.Ignores {
+		if isUnderPath(fileName, exclude) {
+			return false
+		}
+	}
 	return c.IsTargetDir(filepath.Dir(fileName)) && utils.IsGoFile(fileName)
 }
